@@ -102,9 +102,14 @@ def run(run, tier, replay):
             run.sample(obj["replay"])
             return
         quick = tier == "quick"
+        import time
+        t0 = time.time()
+
+        def phase(name):
+            vlib.log("[C11 %6.1fs] %s" % (time.time() - t0, name))
         with concurrent.futures.ThreadPoolExecutor(max_workers=6 if quick else 5) as ex:
-            for f in [ex.submit(vlib.sany, m) for m in
-                      ("IoHelpers", "Gen_IoHelpers", "IoHelpersMem", "Gen_IoHelpersMem")]:
+            # the Gen_ modules extend IoHelpers / IoHelpersMem, SANY parses those too
+            for f in [ex.submit(vlib.sany, m) for m in ("Gen_IoHelpers", "Gen_IoHelpersMem")]:
                 f.result()
             w = 2
             counts, counts_mem, counts_sim = {}, {}, {}
@@ -135,8 +140,11 @@ def run(run, tier, replay):
                         dst.write(src.read().replace("INVARIANTS Conforms", "INVARIANTS " + inv))
                     jobs["strict_" + inv] = ex.submit(vlib.tlc, "IoHelpers", cfgp, workers=1, timeout=600, coverage=False)
             # 3. build the harness meanwhile
+            phase("TLC jobs started, building harness")
             vlib.cargo_build("hio", [BIN])
+            phase("harness built")
             res = {k: f.result() for k, f in jobs.items()}
+        phase("TLC jobs finished")
 
         g = res["gen"]
         vlib.require_model_ok(g, "IoHelpers/Gen")
@@ -205,6 +213,7 @@ def run(run, tier, replay):
         run.note("drift_runs", total_drift)
         run.note("exhaustive", True)
 
+        phase("replayed")
         # 5. negative control: corrupt one expectation per case and demand that the replay notices,
         #    and corrupt the payload side (schedule) and demand that the contract oracle is unaffected
         bad = os.path.join(tmp, "neg.jsonl")
